@@ -20,6 +20,8 @@ commands (one per line):
   T           report tty/launch facts as JSON      -> ack 't <json>'
   Z <secs>    sleep                                -> ack 'z'
   P           ping                                 -> ack 'p'
+  F <hex> <secs>  write numbered lines ('%07d\\n') to fd 1 without pause until one of the bytes <hex> has been read from
+              fd 0 or <secs> have passed                      -> ack 'f <lines> <stopped 0|1>'
   H <secs>    fork a grandchild that ignores SIGHUP, keeps this process's terminal open and sleeps -> ack 'h <pid>'
 """
 import json
@@ -165,6 +167,30 @@ def main():
                 send('z')
             elif c == 'P':
                 send('p')
+            elif c == 'F':
+                a = arg.split()
+                stop, limit = bytes.fromhex(a[0]), float(a[1])
+                t0 = time.time()
+                k = stopped = 0
+                while time.time() - t0 < limit and not stopped and not eof[0]:
+                    line = b'%07d\n' % k
+                    n = 0
+                    while n < len(line):
+                        n += os.write(1, line[n:])
+                    k += 1
+                    rr, _, _ = select.select([0], [], [], 0)
+                    if rr:
+                        try:
+                            d = os.read(0, 65536)
+                        except OSError:
+                            d = b''
+                        if not d:
+                            eof[0] = True
+                        else:
+                            got.extend(d)
+                            if any(b in stop for b in d):
+                                stopped = 1
+                send('f %d %d' % (k, stopped))
 
 
 if __name__ == '__main__':
